@@ -5,6 +5,7 @@ import (
 	"flag"
 	"fmt"
 	"os"
+	"runtime/pprof"
 
 	"verif/harness/sim"
 )
@@ -14,8 +15,15 @@ func main() {
 	cfgPath := flag.String("cfg", "", "scenario config (json)")
 	out := flag.String("out", "", "ndjson output file")
 	path := flag.String("path", "", "comma separated action path (replay)")
+	depth := flag.Int("depth", 0, "depth bound (0 = none)")
 	maxStates := flag.Int("max-states", 200000, "state budget")
+	prof := flag.String("cpuprofile", "", "write cpu profile")
 	flag.Parse()
+	if *prof != "" {
+		f, _ := os.Create(*prof)
+		pprof.StartCPUProfile(f)
+		defer pprof.StopCPUProfile()
+	}
 	var cfg sim.Config
 	b, err := os.ReadFile(*cfgPath)
 	if err != nil {
@@ -32,6 +40,10 @@ func main() {
 	case "replay":
 		os.Exit(sim.RunReplay(cfg, *path, os.Stdout))
 	case "explore":
-		os.Exit(sim.RunExplore(cfg, *out, *maxStates))
+		rc := sim.RunExplore(cfg, *out, *maxStates, *depth)
+		pprof.StopCPUProfile()
+		os.Exit(rc)
+	case "replayjson":
+		os.Exit(sim.RunReplayJSON(cfg, *path, *out, os.Stdout))
 	}
 }
